@@ -28,18 +28,83 @@ type planned struct {
 
 func plan(tier string) []planned {
 	stale := []string{"open:3", "kill:3"}
+	var ps []planned
 	if tier == "thorough" {
-		return []planned{
+		ps = []planned{
 			{Config{Name: "3 holders + CLI, atomic events", Holders: 3, CLI: allCLI, Depth: 6}, 18 * time.Minute},
 			{Config{Name: "inside of two concurrent opens, no lock file", Holders: 2, Step: true}, 4 * time.Minute},
 			{Config{Name: "inside of two concurrent opens, lock left by a dead holder", Holders: 3, Step: true, Prefix: stale}, 4 * time.Minute},
 		}
+	} else {
+		ps = []planned{
+			{Config{Name: "2 holders + CLI, atomic events", Holders: 2, CLI: allCLI, Depth: 5}, 4 * time.Minute},
+			{Config{Name: "inside of two concurrent opens, no lock file", Holders: 2, Step: true}, 2 * time.Minute},
+			{Config{Name: "inside of two concurrent opens, lock left by a dead holder", Holders: 3, Step: true, Prefix: stale}, 2 * time.Minute},
+		}
 	}
-	return []planned{
-		{Config{Name: "2 holders + CLI, atomic events", Holders: 2, CLI: allCLI, Depth: 5}, 4 * time.Minute},
-		{Config{Name: "inside of two concurrent opens, no lock file", Holders: 2, Step: true}, 2 * time.Minute},
-		{Config{Name: "inside of two concurrent opens, lock left by a dead holder", Holders: 3, Step: true, Prefix: stale}, 2 * time.Minute},
+	// command sweep: every cache-opening command once in each prepared situation
+	var every []string
+	for n := range cliCatalogue {
+		every = append(every, n)
 	}
+	sort.Strings(every)
+	for _, sit := range []struct {
+		name   string
+		prefix []string
+	}{
+		{"no identity, no lock", nil},
+		{"identity selected", []string{"cli:user-new"}},
+		{"identity and a bug", []string{"cli:user-new", "cli:bug-new"}},
+		{"live holder, no identity", []string{"open:1"}},
+		{"live holder, identity selected", []string{"cli:user-new", "open:1"}},
+		{"lock left by a killed holder", []string{"open:1", "kill:1"}},
+		{"lock left by a holder that exited without closing, identity and a bug", []string{"cli:user-new", "cli:bug-new", "open:1", "exit:1"}},
+	} {
+		ps = append(ps, planned{Config{Name: "command sweep: " + sit.name, Holders: 1, Prefix: sit.prefix, CLI: every, Depth: 1}, 5 * time.Minute})
+	}
+	return ps
+}
+
+// uncoveredCommands compares `git-bug commands` of the binary under test with the catalogue.
+func uncoveredCommands(env *Env) []string {
+	cmd := exec.Command(env.GitBug, "commands")
+	cmd.Env = append(os.Environ(), "DBUS_SESSION_BUS_ADDRESS=unix:path=/nonexistent")
+	cmd.Dir = env.Scratch
+	out, err := cmd.Output()
+	if err != nil {
+		return []string{"(git-bug commands failed: " + err.Error() + ")"}
+	}
+	have := map[string]bool{}
+	for _, args := range cliCatalogue {
+		var path []string
+		for _, a := range args {
+			if strings.HasPrefix(a, "-") || a == "0123abc" || a == "nosuchremote" || a == "nosuchbridge" || a == "sometoken" {
+				break
+			}
+			path = append(path, a)
+		}
+		have[strings.Join(path, " ")] = true
+	}
+	var missing []string
+	for _, l := range strings.Split(string(out), "\n") {
+		f := strings.Fields(l)
+		if len(f) == 0 || f[0] != "git-bug" {
+			continue
+		}
+		var path []string
+		for _, a := range f[1:] {
+			if strings.ToLower(a) != a || strings.HasPrefix(a, "[") {
+				break
+			}
+			path = append(path, a)
+		}
+		p := strings.Join(path, " ")
+		if !have[p] && !cliNoCache[p] {
+			missing = append(missing, p)
+		}
+	}
+	sort.Strings(missing)
+	return missing
 }
 
 var assumptions = []string{
@@ -166,7 +231,6 @@ func Main(args []string) {
 		if ex.HarnessErr != "" {
 			harnessErr = ex.HarnessErr
 			fmt.Fprintln(os.Stderr, "harness error:", ex.HarnessErr)
-			break
 		}
 		shapes := ex.sortedFound()
 		hits := Reproductions(env, &cfg, shapes, 5)
@@ -176,6 +240,9 @@ func Main(args []string) {
 				Detail: fmt.Sprintf("[%s] after %v: %s (reproduced %d/5)", cfg.Name, f.Path, f.Detail, n),
 				Replay: map[string]any{"config": cfg, "path": f.Path, "trace": traceLines(f.Trace), "reproduced_of_5": n},
 				Count:  f.Count})
+		}
+		if harnessErr != "" {
+			break
 		}
 	}
 	cov["states"] = states
@@ -189,6 +256,7 @@ func Main(args []string) {
 	cov["transition_outcomes"] = outcomes
 	cov["distinct_outcomes"] = len(outcomes)
 	cov["violations_by_oracle"] = verdicts
+	cov["cli_commands_not_in_catalogue"] = uncoveredCommands(env)
 	ev := evidence.Evidence{PropertyID: "C19", Tier: tier, Seed: evidence.Seed(), Level: "model_checking", Coverage: cov,
 		Assumptions: assumptions, WallS: time.Since(start).Seconds(), Violations: rep.Viol, Known: rep.KnownSeen()}
 	sort.Strings(ev.Known)
